@@ -63,6 +63,7 @@ class Conn(object):
         self.rpos = 0                 # next byte to hand to the client
         self.tx = bytearray()         # everything the client wrote
         self.server = None
+        self.lowat = 1                # SO_RCVLOWAT of the client socket
         self.broken = False           # reset seen: shutdown() -> ENOTCONN
         self.peer_closed = False
         # TLS
@@ -125,7 +126,11 @@ class Conn(object):
                 return t
         return None
 
-    def readable(self, now):
+    def readable(self, now, poll=False):
+        """poll=True: what select/poll/epoll report - they honour the receive low-water mark (SO_RCVLOWAT) unless
+        the stream has ended"""
+        if poll and self.lowat > 1:
+            return self.avail_end(now) - self.rpos >= self.lowat or self.term_now(now) is not None
         return self.rpos < self.avail_end(now) or self.term_now(now) is not None
 
     def sync(self, now):
@@ -268,6 +273,10 @@ class SimSocket(object):
 
     def setsockopt(self, *a):
         self.world.rec('setsockopt', self.sid, a)
+        if len(a) == 3 and a[0] == _real_socket.SOL_SOCKET and a[1] == getattr(_real_socket, 'SO_RCVLOWAT', -1):
+            self.rcvlowat = int(a[2])
+            if self.conn is not None:
+                self.conn.lowat = self.rcvlowat
 
     def settimeout(self, t):
         self.timeout = t
@@ -292,6 +301,7 @@ class SimSocket(object):
             w.now += 30
             raise _mkerr('timeout')
         conn = Conn(w, len(w.conns))
+        conn.lowat = getattr(self, 'rcvlowat', 1)
         w.conns.append(conn)
         self.conn = conn
         conn.server = w.server_factory(conn.index)
@@ -608,7 +618,7 @@ class SimSelector(lomond.selectors.SelectorBase):
             w.rec('wait_closed', sock.sid, None)
             raise OSError(errno.EBADF, 'Bad file descriptor')
         conn.sync(w.now)
-        if conn.readable(w.now):
+        if conn.readable(w.now, poll=True):
             w.rec('wait', sock.sid, ('ready', timeout))
             return True
         forever = timeout is None
@@ -632,7 +642,7 @@ class SimSelector(lomond.selectors.SelectorBase):
                 break
             w.now = max(w.now, t_next)
             conn.sync(w.now)
-            if conn.readable(w.now):
+            if conn.readable(w.now, poll=True):
                 w.rec('wait', sock.sid, ('arrive', timeout, t_next))
                 return True
         if forever or (t_next is None and w.now >= w.horizon):
